@@ -62,6 +62,12 @@ fn noise_prologue(local_fingerprint: Vec<u8>, remote_fingerprint: Vec<u8>) -> Ve
     prologue
 }
 
+/// Verification hook: the Noise prologue computed from the two DTLS fingerprints.
+#[cfg(feature = "verif")]
+pub fn verif_noise_prologue(local_fingerprint: Vec<u8>, remote_fingerprint: Vec<u8>) -> Vec<u8> {
+    noise_prologue(local_fingerprint, remote_fingerprint)
+}
+
 /// WebRTC connection event.
 #[derive(Debug)]
 pub enum WebRtcEvent {
